@@ -90,13 +90,15 @@ class C07(Prop):
         if op in ('coalesce', 'repartition'):
             return {'op': op, 'layout': layout, 'm': rng.randint(1 if op == 'coalesce' else 0, cur + 3)}
         if op == 'partitionBy':
-            f = rng.choice(['default', 'default', 'default', 'ident', 'len', 'const'])
+            f = rng.choice(['default', 'default', 'default', 'ident', 'len', 'const', 'identz', 'shift', 'negate'])
             pairs_layout = []
             for p in layout:
                 q = []
                 for v in p:
                     if f == 'ident':
                         k = rng.choice([0, 1, 2, 3, 4, 5, 10, 11, 100])
+                    elif f in ('identz', 'shift', 'negate'):      # partition functions with negative results (floor-mod)
+                        k = rng.choice([-7, -4, -3, -2, -1, 0, 1, 2, 3, 5, 8])
                     elif f == 'len':
                         k = rng.choice(['', 'a', 'bb', 'ccc', 'dddd', (1,), (1, 2), ()])
                     else:
@@ -192,7 +194,8 @@ class C07(Prop):
                 elif op == 'repartition':
                     impl = rdd.repartition(case['m']).glom().collect()
                 elif op == 'partitionBy':
-                    f = {'default': None, 'ident': lambda k: k, 'len': len, 'const': lambda k: 5}[case['f']]
+                    f = {'default': None, 'ident': lambda k: k, 'len': len, 'const': lambda k: 5, 'identz': lambda k: k,
+                         'shift': lambda k: k - 3, 'negate': lambda k: -k}[case['f']]
                     impl = rdd.partitionBy(case['n'], f).glom().collect()
                 elif op == 'withIndex':
                     impl = rdd.mapPartitionsWithIndex(lambda i, it: [(i, list(it))]).glom().collect()
